@@ -304,8 +304,8 @@ def run(ctx):
     else:
         q = ctx.quick()
         cases = corpus() + ctx_cases()
-        cases += [gen_match(ctx.rng) for _ in range(1500 if q else 15000)]
-        cases += [gen_chain(ctx.rng) for _ in range(600 if q else 8000)]
+        cases += [gen_match(ctx.rng) for _ in range(1500 if q else 8000)]
+        cases += [gen_chain(ctx.rng) for _ in range(600 if q else 4000)]
     for i, c in enumerate(cases):
         c["id"] = i
     stats, distinct = evaluate(ctx, cases)
